@@ -128,6 +128,7 @@ func applyOpOverrides(of *gql.OpFeatures, on, off featSet) {
 	set("abstract-frag-meta", &of.AbstractFragMeta)
 	set("frag-twice", &of.FragTwice)
 	set("frag-directives", &of.FragDirectives)
+	set("frag-reuse", &of.FragReuse)
 }
 
 func opFeatures(s *sched.Sim, cfg Config) gql.OpFeatures {
